@@ -8,12 +8,14 @@
                                        gives the same pairs
   Form view: `form_view_roundtrip` (content type reset to the bare form type, any charset dropped; urllib and the text codec as parameters).
   Set-Cookie: `set_cookie_header_roundtrip`, `set_cookie_roundtrip`.
+  Path components / query on the raw request target: `path_components_roundtrip`, `query_view_roundtrip_target`.
   Query view: `query_view_roundtrip` (urllib's urlencode / parse_qsl as parameters with the law parse_qsl (urlencode ps) = ps).
   Multipart: the full statement `MultipartRoundtrips` is false for the code — `multipart_roundtrip_counterexample` (F-C34a);
   `multipart_roundtrip_partial` proves the round trip under the guards (induction over the part list); `noEarly_piece` derives its
   delimiter guard and `multipart_roundtrip` states every guard on the input (key/value/content type do not contain `--boundary`).
 -/
 import MitmVerif.Model.C34
+import MitmVerif.Lemmas.C34Path
 namespace MitmVerif.Props.C34
 open MitmVerif MitmVerif.C34
 
@@ -293,6 +295,96 @@ theorem form_view_roundtrip (L : FormLib) (m : FormMsg) (ps : List (Str × Str))
 /-- the style imitation is not vacuous: with a bare parameter in the existing body the pair ('','') is erased (F-C34e) -/
 example : dropTrailingEq (replEqAmp (S "a=1&=&b=&=")) = S "a=1&&b&" ∧ bareStyle (S "a&b=2") = true ∧ bareStyle (S "a=1&b=2") = false ∧
     bareStyle [] = false := by decide +kernel
+
+/-! ### the path_components and query views on the raw request target (urlparse's reading transcribed, tied by `tparts`/`tset`) -/
+
+/-- what is assumed of `urllib.parse.quote(c, safe="")` / `unquote`: unquote inverts quote, a quoted component contains none of
+    `/ ; ? #`, and only the empty component quotes to the empty string -/
+structure QuoteLaw (U : UrlCodec) : Prop where
+  inv : ∀ c, U.unquote (U.quote c) = c
+  clean : ∀ c x, x ∈ U.quote c → x ≠ 47 ∧ x ≠ 59 ∧ x ≠ 63 ∧ x ≠ 35
+  nonempty : ∀ c, c ≠ [] → U.quote c ≠ []
+
+/-- **C34 (path components).** For ANY request target `p` (leading `//`, `;params`, several `?`, `#`, `*`, empty …), any scheme and
+    any list of non-empty components: after assigning them, the view reads back exactly these components in order, and the target's
+    `;params`, query and fragment are the ones it had. -/
+theorem path_components_roundtrip (U : UrlCodec) (law : QuoteLaw U) (scheme p : Str) (cs : List Str) (hcs : ∀ c ∈ cs, c ≠ []) :
+    getPathComponents U scheme (setPathComponents U scheme p cs) = cs ∧
+    targetParts scheme (setPathComponents U scheme p cs) =
+      { targetParts scheme p with path := 47 :: joinSlash (cs.map U.quote) } := by
+  have wf := targetParts_wf scheme p
+  -- the new path contains none of the delimiters
+  have hnp : ∀ x ∈ (47 :: joinSlash (cs.map U.quote)), x ≠ 59 ∧ x ≠ 63 ∧ x ≠ 35 := by
+    intro x hx
+    rcases List.mem_cons.mp hx with rfl | hx
+    · decide
+    · by_cases h47 : x = 47
+      · subst h47; decide
+      · obtain ⟨q, hq, hxq⟩ := joinSlash_mem _ x h47 hx
+        obtain ⟨c, _, rfl⟩ := List.mem_map.mp hq
+        exact (law.clean c x hxq).2
+  let t' : Target := { targetParts scheme p with path := 47 :: joinSlash (cs.map U.quote) }
+  have wf' : TargetWF scheme t' :=
+    { path35 := fun m => (hnp 35 m).2.2 rfl, path63 := fun m => (hnp 63 m).2.1 rfl, params35 := wf.params35, params63 := wf.params63,
+      params47 := wf.params47, query35 := wf.query35, noParams := wf.noParams }
+  have hstar : unparseTarget t' ≠ [42] := by
+    unfold unparseTarget; simp [t']
+  have hparts : targetParts scheme (setPathComponents U scheme p cs) = t' :=
+    targetParts_unparse scheme t' wf' (fun m => (hnp 59 m).1 rfl) hstar
+  refine ⟨?_, hparts⟩
+  unfold getPathComponents
+  rw [hparts]
+  unfold getComponents
+  show (List.filter (fun x => decide (x ≠ [])) (splitSlash (47 :: joinSlash (cs.map U.quote)))).map U.unquote = cs
+  have hsp : splitSlash (47 :: joinSlash (cs.map U.quote)) = [] :: splitSlash (joinSlash (cs.map U.quote)) := by simp [splitSlash]
+  rw [hsp]
+  by_cases hemp : cs = []
+  · subst hemp; simp [joinSlash, splitSlash]
+  · have hq47 : ∀ q ∈ cs.map U.quote, 47 ∉ q := by
+      intro q hq m
+      obtain ⟨c, _, rfl⟩ := List.mem_map.mp hq
+      exact (law.clean c 47 m).1 rfl
+    rw [splitSlash_join _ (by simpa using hemp) hq47]
+    have hall : ∀ q ∈ cs.map U.quote, q ≠ [] := by
+      intro q hq
+      obtain ⟨c, hc, rfl⟩ := List.mem_map.mp hq
+      exact law.nonempty c (hcs c hc)
+    have hf : List.filter (fun x => decide (x ≠ [])) ([] :: cs.map U.quote) = cs.map U.quote := by
+      rw [List.filter_cons_of_neg (by simp), List.filter_eq_self]
+      intro q hq; simpa using hall q hq
+    rw [hf, List.map_map]
+    have : (U.unquote ∘ U.quote) = id := funext law.inv
+    simp [this]
+
+/-- **C34 (query view on the target).** With urllib's law `parse_qsl (urlencode ps) = ps` and urlencode writing no `#`: after assigning
+    pairs to the query of any request target whose path is not the bare `*`, the view reads them back, and path, `;params` and fragment
+    are untouched; writing the view's value back gives the same target. -/
+theorem query_view_roundtrip_target (U : UrlCodec) (hlaw : ∀ ps, U.parseQsl (U.urlencode ps) = ps) (hno : ∀ ps, 35 ∉ U.urlencode ps)
+    (scheme p : Str) (ps : List (Str × Str))
+    (hpath : 59 ∉ (targetParts scheme p).path) (hstar : unparseTarget (setQuery U (targetParts scheme p) ps) ≠ [42]) :
+    getQueryOf U scheme (setQueryOf U scheme p ps) = ps ∧
+    targetParts scheme (setQueryOf U scheme p ps) = { targetParts scheme p with query := U.urlencode ps } ∧
+    setQueryOf U scheme (setQueryOf U scheme p ps) (getQueryOf U scheme (setQueryOf U scheme p ps)) = setQueryOf U scheme p ps := by
+  have wf := targetParts_wf scheme p
+  let t' : Target := { targetParts scheme p with query := U.urlencode ps }
+  have wf' : TargetWF scheme t' :=
+    { path35 := wf.path35, path63 := wf.path63, params35 := wf.params35, params63 := wf.params63, params47 := wf.params47,
+      query35 := hno ps, noParams := wf.noParams }
+  have hparts : targetParts scheme (setQueryOf U scheme p ps) = t' := targetParts_unparse scheme t' wf' hpath hstar
+  have hget : getQueryOf U scheme (setQueryOf U scheme p ps) = ps := by
+    unfold getQueryOf; rw [hparts]; exact hlaw ps
+  refine ⟨hget, hparts, ?_⟩
+  rw [hget]
+  show unparseTarget (setQuery U (targetParts scheme (setQueryOf U scheme p ps)) ps) = _
+  rw [hparts]
+  rfl
+
+-- the reading of the target is not constant and handles the URL-significant shapes
+example : targetParts (S "http") (S "//a/b;k?v=1?w#f#g") =
+      { path := S "//a/b", params := S "k", query := S "v=1?w", fragment := S "f#g" } ∧
+    (targetParts (S "http") (S "*")).path = [] ∧
+    setPathComponents { urlencode := fun _ => [], parseQsl := fun _ => [], quote := id, unquote := id } (S "http") (S "//a/b;k?v=1#f")
+      [S "x", S "y"] = S "/x/y;k?v=1#f" := by decide +kernel
 
 /-! ### multipart: the full statement is false -/
 
